@@ -393,7 +393,11 @@ func init() {
 	s["crypto/ed25519.VerifyWithOptions"] = func(ex *Exec, fr *Frame, st *State, c *callCtx) Val {
 		ex.oblige(fr, st, "pre", "ed25519-pubkey-size", eq(c.args[0].L[2], bvLit(32, 64)), c.pos, "ed25519.VerifyWithOptions panics unless len(pub)==32: "+ex.srcLine(c.pos))
 		ex.cryptoEvent(fr, st, "ed25519.VerifyWithOptions", c)
-		return ex.maybeErr(st, "verify")
+		// nil exactly when the signature verifies (the verdict is visible to contracts as sig_ok)
+		okv := ex.fresh("sigok", sBool)
+		ex.ghostVars["sig_ok"] = boolVal(okv)
+		e := ex.freshErr(st, "verify")
+		return Val{T: errType(), L: []string{ite(okv, "0", e.L[0]), ite(okv, "0", e.L[1])}}
 	}
 
 	// ---- cipher.AEAD (ChaCha20-Poly1305) ----
